@@ -9,6 +9,8 @@ import argparse, json, os, subprocess, sys, time
 
 ROOT = os.path.dirname(os.path.dirname(os.path.abspath(__file__)))
 REPO = "/repo"
+# --copy: work on a scratch copy of /repo (VERIF_REPO) so that other users of /repo are not disturbed; the checks
+# read the repository location from VERIF_REPO, everything else is identical to applying the patch to /repo itself
 
 
 def sh(cmd, **kw):
@@ -30,7 +32,9 @@ def apply(d):
 
 def undo():
     sh(["git", "-C", REPO, "checkout", "--", "."])
-    sh(["/venv/bin/python", os.path.join(ROOT, "tools", "py2lean", "gen.py")])
+    sh(["/venv/bin/python", os.path.join(ROOT, "tools", "py2lean", "gen.py"), "/repo"])
+    if REPO != "/repo":
+        sh(["rm", "-rf", REPO])
 
 
 def run_demo(d):
@@ -45,7 +49,14 @@ def main():
     ap.add_argument("dir")
     ap.add_argument("--props")
     ap.add_argument("--tier", default="quick")
+    ap.add_argument("--copy", action="store_true")
     a = ap.parse_args()
+    global REPO
+    if a.copy:
+        REPO = "/tmp/seedrepo"
+        sh(["rm", "-rf", REPO])
+        sh(["git", "clone", "-q", "/repo", REPO])
+        os.environ["VERIF_REPO"] = REPO
     d = os.path.abspath(a.dir)
     if not clean():
         raise SystemExit("/repo working tree is not clean")
